@@ -7,6 +7,8 @@ import sys
 import jsonpath_rfc9535 as jsonpath
 from jsonpath_rfc9535.__about__ import __version__
 from jsonpath_rfc9535.exceptions import JSONPathIndexError
+from jsonpath_rfc9535.exceptions import JSONPathNameError
+from jsonpath_rfc9535.exceptions import JSONPathRecursionError
 from jsonpath_rfc9535.exceptions import JSONPathSyntaxError
 from jsonpath_rfc9535.exceptions import JSONPathTypeError
 
@@ -120,6 +122,11 @@ def handle_path_command(args: argparse.Namespace) -> None:  # noqa: PLR0912, D10
             raise
         sys.stderr.write(f"index error: {err}\n")
         sys.exit(1)
+    except JSONPathNameError as err:
+        if args.debug:
+            raise
+        sys.stderr.write(f"name error: {err}\n")
+        sys.exit(1)
 
     try:
         data = json.load(args.file)
@@ -128,6 +135,16 @@ def handle_path_command(args: argparse.Namespace) -> None:  # noqa: PLR0912, D10
         if args.debug:
             raise
         sys.stderr.write(f"target document json decode error: {err}\n")
+        sys.exit(1)
+    except UnicodeDecodeError as err:
+        if args.debug:
+            raise
+        sys.stderr.write(f"target document unicode decode error: {err}\n")
+        sys.exit(1)
+    except (JSONPathRecursionError, RecursionError) as err:
+        if args.debug:
+            raise
+        sys.stderr.write(f"recursion error: {err}\n")
         sys.exit(1)
     except JSONPathTypeError as err:
         # Type errors are currently only occurring are compile-time.
